@@ -11,6 +11,7 @@ import (
 	"verif/internal/c04"
 	"verif/internal/c08"
 	"verif/internal/c11"
+	"verif/internal/c14"
 	"verif/internal/c15"
 	"verif/internal/c16"
 	"verif/internal/c18"
@@ -44,6 +45,8 @@ func main() {
 		o = c19.Run(*seed, *n)
 	case "c18":
 		o = c18.Run(*seed, *n)
+	case "c14":
+		o = c14.Run(*seed, *n)
 	case "c16":
 		o = c16.Run(*seed, *n)
 	case "c15":
